@@ -507,6 +507,21 @@ func (s *Session) BreakStreams(rdv, which string) {
 	}
 }
 
+// FailSends makes the next k sends on the streams of the rendezvous fail in a
+// row (the send that is retried on the re-created stream fails as well).
+func (s *Session) FailSends(rdv, which string, k int) {
+	for hexid, name := range s.sidName {
+		if len(hexid) != 128 {
+			continue
+		}
+		if (name == rdv && which != "c2s") || (name == rdv+".c2s" && which != "s2c") {
+			b, _ := hex.DecodeString(hexid)
+			s.Rec.Emit("relayFault", "what", "failSends", "sid", name, "k", k)
+			s.Relay.FailSends(b, k)
+		}
+	}
+}
+
 // Accepted waits for the next connection the listener handed out (after its
 // server handshake finished one way or the other).
 func (s *Session) Accepted() *Conn {
